@@ -42,6 +42,7 @@ EXHAUSTIVE_NOTE = ('bounded-exhaustive part: for each of the listed small config
 BUDGET = {'quick': dict(examples=4000, shards=8, seconds=80, chunk=100),
           'thorough': dict(examples=200000, shards=16, seconds=1200, chunk=500)}
 
+CASE_CAP = {'quick': 240, 'thorough': 600}     # real multiprocessing runs carry their own 150 s timeout
 PREDS = ['none-given', 'all', 'some', 'late', 'none-selected', 'some3']
 
 
